@@ -14,30 +14,6 @@ import (
 
 func init() { register("C11", checkC11) }
 
-var ts33Alpha = func() []uint64 {
-	a := []uint64{0, 1<<33 - 1, 0x155555555, 0x0AAAAAAAA}
-	for k := 0; k < 33; k++ {
-		a = append(a, 1<<uint(k))
-	}
-	return a
-}()
-
-var ext9Alpha = func() []uint64 {
-	a := []uint64{0, 511, 0x155}
-	for k := 0; k < 9; k++ {
-		a = append(a, 1<<uint(k))
-	}
-	return a
-}()
-
-func bitsAlpha(n int) []uint64 {
-	a := []uint64{0, 1<<uint(n) - 1, (1<<uint(n) - 1) / 3}
-	for k := 0; k < n; k++ {
-		a = append(a, 1<<uint(k))
-	}
-	return a
-}
-
 type afField struct {
 	name    string
 	present func(a *ref.AF) bool
